@@ -1,6 +1,118 @@
 import TabulaModel.Util
+import TabulaModel.Model.FontDecode
+import TabulaModel.Model.EncodingRef
+/-!
+Line protocol of property C07 (see harness/c07). Byte strings are hex (`-` = empty),
+scalar values are lower-case hex numbers separated by single spaces (`-` = no scalar).
+-/
 namespace Tabula.C07H
+open Tabula Tabula.UTF16 Tabula.Encoding Tabula.CMap Tabula.FontDecode
 
-def handle (_op : String) (_args : List String) : String := "bad-op"
+def unhexN (s : String) : Option (List Nat) := (unhex s).map fun b => b.map (·.toNat)
+
+def hexNat (n : Nat) : String := String.ofList (Nat.toDigits 16 n)
+
+def scalars (l : List Nat) : String := if l.isEmpty then "-" else " ".intercalate (l.map hexNat)
+def scalarsC (l : List Nat) : String := if l.isEmpty then "-" else ",".intercalate (l.map hexNat)
+
+def hexNat? (s : String) : Option Nat :=
+  if s.isEmpty then none else
+  s.toList.foldl (fun acc c => match acc, hexDigitVal c with
+    | some a, some d => some (a * 16 + d) | _, _ => none) (some 0)
+
+def scalarsC? (s : String) : Option (List Nat) :=
+  if s == "-" then some [] else (s.splitOn ",").mapM hexNat?
+
+/-- `p>q;p>q` table of NFC results supplied by the harness (`~` = empty) -/
+def nfcTable? (s : String) : Option (List (List Nat × List Nat)) :=
+  if s == "~" then some [] else
+  (s.splitOn ";").mapM fun e => match e.splitOn ">" with
+    | [p, q] => do let p ← scalarsC? p; let q ← scalarsC? q; pure (p, q)
+    | _ => none
+
+def refOf (v : String) : Option (Array (List Nat)) :=
+  if v = "winAnsiTable" then some C07.winAnsiRef
+  else if v = "macRomanTable" then some C07.macRomanRef
+  else if v = "pdfDocTable" then some C07.pdfDocRef
+  else if v = "standardEncodingTableData" then some C07.standardRef
+  else if v = "symbolEncodingTable" then some C07.symbolRef
+  else if v = "zapfDingbatsEncodingTable" then some C07.zapfRef
+  else none
+
+def insertSorted (p : Nat × List Nat) : List (Nat × List Nat) → List (Nat × List Nat)
+  | [] => [p]
+  | q :: t => if p.1 < q.1 then p :: q :: t else q :: insertSorted p t
+
+/-- the Go map as sorted `(code,text)` pairs: newest binding of each code only -/
+def canonChars (chars : List (Nat × List Nat)) : List (Nat × List Nat) :=
+  let rec go : List (Nat × List Nat) → List Nat → List (Nat × List Nat) → List (Nat × List Nat)
+    | [], _, acc => acc
+    | p :: t, seen, acc => if seen.contains p.1 then go t seen acc else go t (p.1 :: seen) (insertSorted p acc)
+  go chars [] []
+
+def dumpState (cm : CMap) : String :=
+  let cs := (canonChars cm.chars).map fun p => s!"{hexNat p.1}:{scalarsC p.2}"
+  let rs := cm.ranges.map fun r => s!"{hexNat r.start}:{hexNat r.stop}:{hexNat r.startUnicode}:{scalarsC r.units}"
+  s!"bw={cm.byteWidth} abw={cm.actualByteWidth} chars={";".intercalate cs} ranges={";".intercalate rs}"
+
+def optScalars : Option (List Nat) → String
+  | some l => "ok " ++ scalars l
+  | none => "err"
+
+def handle (op : String) (args : List String) : String :=
+  match op, args with
+  | "c07.enc", [n, d] => match unhexN n, unhexN d with
+    | some n, some d => (match getEncoding n with
+      | some e => s!"{e.name} {scalars (Encoding.decodeString e.table d)}"
+      | none => "model-err")
+    | _, _ => "bad-op"
+  | "c07.dec", [n, b] => match unhexN n, b.toNat? with
+    | some n, some b => (match getEncoding n with
+      | some e => (match decodeByte e.table b with | some r => toString r | none => "model-err")
+      | none => "model-err")
+    | _, _ => "bad-op"
+  | "c07.ref", [v, b] => match refOf v, b.toNat? with
+    | some t, some b => (match t[b]? with | some l => scalarsC l | none => "bad-op")
+    | _, _ => "bad-op"
+  | "c07.u16be", [d] => match unhexN d with
+    | some d => scalars (decodeUTF16BE d) | none => "bad-op"
+  | "c07.u16le", [d] => match unhexN d with
+    | some d => scalars (decodeUTF16LE d) | none => "bad-op"
+  | "c07.cu16", [d] => match unhexN d with
+    | some d => optScalars (cmapDecodeUTF16BE d) | none => "bad-op"
+  | "c07.h2u", [d] => match unhexN d with
+    | some d => optScalars (hexToUnicode d) | none => "bad-op"
+  | "c07.hex32", [d] => match unhexN d with
+    | some d => (match parseHexToUint32 d with | some v => s!"ok {v}" | none => "err") | none => "bad-op"
+  | "c07.valid", [d] => match unhexN d with
+    | some d => scalars (toValidUTF8 d) | none => "bad-op"
+  | "c07.cmapstate", [p] => match unhexN p with
+    | some p => dumpState (parseCMapData p) | none => "bad-op"
+  | "c07.cmap", [p, d] => match unhexN p, unhexN d with
+    | some p, some d => scalars (lookupString (parseCMapData p) d) | _, _ => "bad-op"
+  | "c07.cmapw", [p, w, d] => match unhexN p, w.toNat?, unhexN d with
+    | some p, some w, some d =>
+      if w = 0 then "bad-op" else scalars (lookupWidth (parseCMapData p) w (d.length + 1) d)
+    | _, _, _ => "bad-op"
+  | "c07.lookup", [p, c] => match unhexN p, c.toNat? with
+    | some p, some c => scalars (lookup (parseCMapData p) c) | _, _ => "bad-op"
+  | "c07.font", [p, n, d, t] =>
+    match (if p == "~" then some none else (unhexN p).map some), unhexN n, unhexN d, nfcTable? t with
+    | some p, some n, some d, some tbl =>
+      let f : Font := ⟨p.map parseCMapData, n⟩
+      (match preNFC f d with
+       | none => "model-err"
+       | some pre => match tbl.find? (fun e => e.1 == pre) with
+         | some e => scalars e.2
+         | none => "nfc-missing " ++ scalars pre)
+    | _, _, _, _ => "bad-op"
+  | "c07.nofont", [d, t] => match unhexN d, nfcTable? t with
+    | some d, some tbl =>
+      let pre := showTextNoFontPre d
+      (match tbl.find? (fun e => e.1 == pre) with
+       | some e => scalars e.2
+       | none => "nfc-missing " ++ scalars pre)
+    | _, _ => "bad-op"
+  | _, _ => "bad-op"
 
 end Tabula.C07H
